@@ -552,7 +552,7 @@ func transitionLineBreakState(state int, r rune, b []byte, str string) (newState
 	}
 
 	// LB13.
-	if rule > 130 && state != lbNU && state != lbNUNU {
+	if rule > 130 && state != lbNU && state != lbNUNU && state != lbNUSY && state != lbNUIS {
 		switch nextProperty {
 		case prCL:
 			return lbCL, LineDontBreak
